@@ -17,7 +17,7 @@ package notifyf
 //@   requires st != nil && validR(readBuf)
 //@   let p0 = readBuf.buf.i
 //@   let allocbudget = 256 * len(readBuf.buf.src)
-//@   modifies *st, readBuf.buf.i, readBuf.depth
+//@   modifies *st, readBuf.rderr, readBuf.buf.i, readBuf.depth
 //@   allocates
 //@   ensures [C05] readBuf.buf.i >= p0
 //@   ensures [C05] validR(readBuf)
@@ -72,6 +72,17 @@ package notifyf
 //@   ensures [C04] (ok9 && err == nil) ==> st.SNodeName == (k9 == 0 ? decStrV(src, q8, 9, d0) : old(st.SNodeName))
 //@   ensures [C06] (ok8 && k9 == 2) ==> err != nil
 //@   ensures [C04] ok9 ==> (err == nil && readBuf.buf.i == q9)
+//@   site ResetDefault#0 ghost readBuf.rderr = false
+//@   site ).Read#0 ghostafter readBuf.rderr = readBuf.rderr || $ret != nil
+//@   site ).Read#1 ghostafter readBuf.rderr = readBuf.rderr || $ret != nil
+//@   site ).Read#2 ghostafter readBuf.rderr = readBuf.rderr || $ret != nil
+//@   site ).Read#3 ghostafter readBuf.rderr = readBuf.rderr || $ret != nil
+//@   site ).Read#4 ghostafter readBuf.rderr = readBuf.rderr || $ret != nil
+//@   site ).Read#5 ghostafter readBuf.rderr = readBuf.rderr || $ret != nil
+//@   site ).Read#6 ghostafter readBuf.rderr = readBuf.rderr || $ret != nil
+//@   site ).Read#7 ghostafter readBuf.rderr = readBuf.rderr || $ret != nil
+//@   site ).Read#8 ghostafter readBuf.rderr = readBuf.rderr || $ret != nil
+//@   ensures [C06] readBuf.rderr ==> err != nil
 //@   site ).Read#0 assert [C04] $2 == 1 && $3 == true
 //@   site ).Read#1 assert [C04] $2 == 2 && $3 == true
 //@   site ).Read#2 assert [C04] $2 == 3 && $3 == true
@@ -89,10 +100,11 @@ package notifyf
 //@   requires st != nil && validR(readBuf)
 //@   let p0 = readBuf.buf.i
 //@   let allocbudget = 256 * len(readBuf.buf.src)
-//@   modifies *st, readBuf.buf.i, readBuf.depth
+//@   modifies *st, readBuf.rderr, readBuf.buf.i, readBuf.depth
 //@   allocates
 //@   ensures [C05] readBuf.buf.i >= p0
 //@   ensures [C05] validR(readBuf)
+//@   ensures [C06] (readBuf.rderr && !old(readBuf.rderr)) ==> result != nil
 //@   safety [C05]
 //
 //@ func (*ReportInfo).WriteTo
